@@ -7,6 +7,7 @@ det = miss = 0
 MISSED_WHY = {
  'C16-3': 'the change is in the in-memory example lister (request-example.go), which is not under contract',
  'C17-3': 'FileMode.String of the internal codec is not under contract (needs a model of indexed writes into a local byte array compared as a string)',
+ 'C17-4': 'the change rounds a time.Time before taking its seconds: pinning the provenance of a foreign struct value needs a ghost of that type, which the contract language cannot declare',
  'C06-6': 'pointer aliasing between loop iterations (all decoded entries point at one hoisted variable): needs a per-iteration freshness fact about pointers already stored in a slice, which the loop-cut encoding does not provide',
 }
 for l in log:
